@@ -118,6 +118,12 @@ func Witnesses() []Case {
 		// same list was left out when the session was reported established
 		{Cfg: []Beh{a, func() Beh { m := f(3); m.Nec = Authn; m.ListReq = true; return m }()},
 			Script: []Item{hdr, adv(AdvItem{NS: 2, Loc: 1}, AdvItem{NS: 3, Loc: 1, Req: true})}, Fault: "-"},
+		// a mandatory feature whose own mask carries Ready (as BindResource) ends the session while
+		// another mandatory feature of the same list is open (in one of the two map orders)
+		{Cfg: []Beh{func() Beh { m := f(3); m.Mask = Ready; m.ListReq = true; return m }(), func() Beh { m := f(4); m.ListReq = true; return m }()},
+			Script: []Item{hdr, adv(AdvItem{NS: 3, Loc: 1, Req: true}, AdvItem{NS: 4, Loc: 1, Req: true})}, Fault: "-"},
+		{St0: Received, Cfg: []Beh{func() Beh { m := f(3); m.Mask = Ready; m.ListReq = true; return m }(), func() Beh { m := f(4); m.ListReq = true; return m }()},
+			Script: []Item{hdr, {Kind: 'E', NS: 3, Loc: 1, Payload: true}}, Fault: "-"},
 		// two configured features of one namespace: the informational one takes the cache slot
 		// of the mandatory one (theorem C01_shared_ns_shadows_mandatory; documented limit)
 		{Cfg: []Beh{{NS: 2, Loc: 1, Negotiable: true, ListReq: true}, {NS: 2, Loc: 2}},
